@@ -170,6 +170,36 @@ Fixpoint custom_loop (ts : list tok) (s : st) : bool * st :=
       end
   end.
 
+(* custom(|inp| ..) over InputRef's public API: next / next_ref / peek / skip / save / rewind / span_since / state *)
+Fixpoint prog_loop (ops : list cop) (start : nat) (stack : list ckpt) (acc : list val) (s : st) : bool * list val * st :=
+  match ops with
+  | [] => (true, acc, s)
+  | o :: r =>
+      match o with
+      | CNext | CNextRef =>
+          match next s with
+          | (Some t, s1) => prog_loop r start stack (VTok t :: acc) s1
+          | (None, s1) => prog_loop r start stack (VUnit :: acc) s1
+          end
+      | CPeek =>        (* InputRef::peek: reads through a copy of the cursor; the inspector is not told *)
+          prog_loop r start stack (match nth_error toks (cur s) with Some t => VTok t | None => VUnit end :: acc) s
+      | CSkip => prog_loop r start stack acc (snd (next s))
+      | CSave => prog_loop r start (save s :: stack) acc s
+      | CRewind =>
+          match stack with
+          | c :: stack' => prog_loop r start stack' acc (rewind s c)
+          | [] => prog_loop r start stack acc s
+          end
+      | CExpect t =>
+          match next s with
+          | (Some u, s1) => if N.eqb t u then prog_loop r start stack acc s1 else (false, acc, s1)
+          | (None, s1) => (false, acc, s1)
+          end
+      | CSpan => prog_loop r start stack (VSpan (fst (spn start (cur s))) (snd (spn start (cur s))) :: acc) s
+      | CState => prog_loop r start stack (VNum (ust s) :: acc) s
+      end
+  end.
+
 Definition run_t := mode -> G -> env -> st -> outcome * st.
 
 (* ---------- loops parameterised by the recursive interpreter ---------- *)
@@ -212,7 +242,8 @@ Fixpoint group_loop (m : mode) (gs : list G) (ctx : env) (acc : list val) (s : s
 Inductive itst := SCount (n : nat) | SEnum (i : nat) (s : itst) | SFlag (b : bool)
                 | SCfg (n : nat) (lo : nat) (hi : option nat)
                 | SFail (k : nat)         (* try_configure: the closure returned Err(custom k) in make_iter *)
-                | SInto (o : option (list val)).   (* into_iter: None = make_iter not yet run (it is modelled at the first `next`:
+                | SInto (o : option (list val))
+                | SThen (sa : itst) (sb : option itst).   (* into_iter: None = make_iter not yet run (it is modelled at the first `next`:
                                                       nothing happens between the two), Some l = the items not yet handed out *)
 Inductive ires := INone | ISome (v : option val) | IErr | IPanic (site : nat) | IOOF.
 
@@ -228,6 +259,7 @@ Fixpoint mk_iter (i : IT) (ctx : env) : itst :=
       if cfg_fails ck (val_count (cval ctx)) then SFail lo
       else SCfg 0 (cfg_lo ck lo (val_count (cval ctx))) (cfg_hi ck hi (val_count (cval ctx)))
   | IIntoIter _ => SInto None
+  | IThen i _ => SThen (mk_iter i ctx) None     (* Then::make_iter makes the first iterator only *)
   end.
 
 (* What make_iter does before any item is asked for, when it does anything: a try_configure whose closure fails records
@@ -238,6 +270,7 @@ Fixpoint it_eager (i : IT) (ctx : env) : option G :=
   | IRepCfg _ lo _ ck => if cfg_fails ck (val_count (cval ctx)) then Some (TryMap PFalse FId lo Empty) else None
   | IEnum j | IMap _ j | IMapWith _ j => it_eager j ctx
   | IIntoIter a => Some (IgnoreThen a (Group []))       (* the parser runs, its output is discarded, the result is [] *)
+  | IThen i _ => it_eager i ctx
   | _ => None
   end.
 
@@ -247,6 +280,7 @@ Fixpoint noncons_ok (i : IT) : bool :=
   | IEnum j | IMap _ j | IMapWith _ j => noncons_ok j
   | IOrNot _ => true
   | IIntoIter _ => true
+  | IThen i j => andb (noncons_ok i) (noncons_ok j)
   end.
 
 Definition at_cap (c : nat) (hi : option nat) : bool :=
@@ -361,6 +395,16 @@ Fixpoint it_next (m : mode) (i : IT) (ctx : env) (its : itst) (s : st) : ires * 
       match l with
       | [] => (INone, its, s)
       | x :: l' => (ISome (bindv m x), SInto (Some l'), s)
+      end
+  | IThen i j, SThen sa (Some sb) =>
+      (* Then::next: once the second iterator exists the first is never asked again *)
+      match it_next m j ctx sb s with (r, sb', s') => (r, SThen sa (Some sb'), s') end
+  | IThen i j, SThen sa None =>
+      match it_next m i ctx sa s with
+      | (INone, sa', s1) =>
+          (* the first iterator ended: make the second one and ask it *)
+          match it_next m j ctx (mk_iter j ctx) s1 with (r, sb', s2) => (r, SThen sa' (Some sb'), s2) end
+      | (r, sa', s1) => (r, SThen sa' None, s1)
       end
   | _, _ => (IPanic 99, its, s)       (* ill-typed iterator state: unreachable from mk_iter *)
   end.
@@ -592,6 +636,11 @@ Fixpoint go (n : nat) (m : mode) (g : G) (ctx : env) (s : st) {struct n} : outco
       match custom_loop ts s with
       | (true, s1) => (Ok (bindv m (VList (map VTok ts))), s1)
       | (false, s1) => (Err, alt_err s1 (cur s) (custom_err K k (spn (cur s) (cur s1))))
+      end
+  | Prog ops k =>
+      match prog_loop ops (cur s) [] [] s with
+      | (true, acc, s1) => (Ok (bindv m (VList (rev acc))), s1)
+      | (false, _, s1) => (Err, alt_err s1 (cur s) (custom_err K k (spn (cur s) (cur s1))))
       end
   | Map f a =>
       match run m a ctx s with
